@@ -893,6 +893,15 @@ func (ex *Exec) evCall(x *SCall, env *Env) Val {
 			if f.Ty != nil {
 				sig, _ = f.Ty.Underlying().(*types.Signature)
 			}
+		case VClosure:
+			t, ok := ex.closureTerm(env.st, f)
+			if !ok {
+				specFail("apply: closure has no term identity")
+			}
+			ft = t
+			if f.Ty != nil {
+				sig, _ = f.Ty.Underlying().(*types.Signature)
+			}
 		default:
 			specFail("apply: function value is not a term")
 		}
@@ -940,6 +949,24 @@ func (ex *Exec) evCall(x *SCall, env *Env) Val {
 			return TV(IfVal(v.T), types.NewPointer(tn))
 		}
 		return TV(v.T, types.NewPointer(tn))
+	case "liberr":
+		v := arg(0)
+		ex.wantSort(v, SortIface, "liberr")
+		return TV(app(SortBool, "liberr", v.T), boolT)
+	case "typeimpl":
+		// typeimpl(x, "pkg.Iface"): the dynamic type of x implements the interface
+		v := arg(0)
+		ex.wantSort(v, SortIface, "typeimpl")
+		sl, ok := x.Args[1].(*SStr)
+		if !ok {
+			specFail("typeimpl(x, \"pkg.Iface\")")
+		}
+		tn := lookupNamed(ex, sl.V)
+		if tn == nil {
+			specFail("typeimpl: unknown type %s", sl.V)
+		}
+		fn := ex.implFn(env.st, tn)
+		return TV(app(SortBool, fn, IfTy(v.T)), boolT)
 	case "disjoint":
 		a, b := arg(0), arg(1)
 		return TV(Not(Eq(ex.idOf(a), ex.idOf(b))), boolT)
@@ -1115,4 +1142,28 @@ func resolveHeapName(r string) (string, string) {
 		}
 	}
 	return found, fs
+}
+
+// closureTerm gives bound method values (recv.m) a term identity:
+// boundfn.<method>(id of recv), the same term the spec builtin boundfn yields.
+func (ex *Exec) closureTerm(st *State, f Val) (Term, bool) {
+	if f.Kind != VClosure || f.Fn == nil {
+		return Term{}, false
+	}
+	if strings.HasSuffix(f.Fn.Name(), "$bound") && len(f.Binds) == 1 && f.Binds[0].Kind == VTerm {
+		m := ex.boundTarget(f.Fn)
+		if m == nil {
+			return Term{}, false
+		}
+		fn := "boundfn." + mangle(m.String())
+		if !st.decl[fn] {
+			st.decl[fn] = true
+			st.emit(fmt.Sprintf("(declare-fun %s (Int) Int)", fn))
+		}
+		return app(SortInt, fn, ex.idOf(f.Binds[0])), true
+	}
+	if len(f.Binds) == 0 {
+		return IntLit(int64(typeIDByName("fn:" + f.Fn.String()))), true
+	}
+	return Term{}, false
 }
